@@ -751,6 +751,11 @@ def leg_sim(req, asgi):
         cap['style'].append('inline-query-with-qmark')
     if kw.get('params'):
         cap['style'].append('params-dict')
+    hv = list(kw['headers'].values()) if isinstance(kw['headers'], dict) else [v for _, v in kw['headers']]
+    if any(v is not None and v != v.strip() for v in hv):
+        cap['style'].append('ows-header-value')
+    if any(v is None for v in hv):
+        cap['style'].append('none-header-value')
     cap['kwargs'] = {k: v for k, v in kw.items()}
     cap['escaped'] = None
     cap['problems'] = []
@@ -1273,7 +1278,7 @@ CLASS_FLOORS = ['cls.path-pct-utf8', 'cls.path-invalid-utf8', 'cls.path-trailing
                 'resp.body.data', 'resp.body.media', 'resp.body.stream.gen', 'resp.body.stream.file',
                 'resp.body.stream.set_stream', 'read.read', 'read.readn', 'read.iter', 'read.media', 'read.multipart',
                 'fam.E6.sim-style', 'fam.E6.sim-query-style', 'sim.style.inline-query', 'sim.style.inline-query-with-qmark',
-                'sim.style.params-dict']
+                'sim.style.params-dict', 'fam.E6.sim-ows', 'sim.style.ows-header-value', 'sim.style.none-header-value']
 
 
 def run(rec):
